@@ -53,7 +53,7 @@ def lcov_part(chk):
                 b[rng.randrange(len(b))] = rng.randrange(256)
         cases.append(("random", name, bytes(b)))
     jcases = [{"hex": d.hex(), "branch": (i % 2 == 0)} for i, (_, _, d) in enumerate(cases)]
-    impl = vlib.run_impl("lcov", jcases, chk.pid, parallel=8)
+    impl = vlib.run_impl("lcov", jcases, chk.pid, parallel=8, case_timeout=6)
     classes = {}
     worst = 0
     known = {e["key"]: e for e in vlib.known_findings(chk.pid) if e.get("status") == "known"}
